@@ -641,3 +641,15 @@ Proof.
   split; [apply (CInv_init (ex_raft 1 false [])); reflexivity|].
   eexists. split; [vm_compute; reflexivity|]. vm_compute. reflexivity.
 Qed.
+
+(* the "pending_conf_index can have moved" case of (7) is real: a conf-change proposal that
+   passes the filter but is then refused for its size leaves pending_conf_index at the index it
+   would have had (same in the Rust: the assignment precedes append_entry) *)
+Example C13_ex_dropped_moves_pending_conf_index :
+  exists r', step_leader (ex_raft 1 false [])
+               (msg_default <| m_type := MsgPropose |>
+                            <| m_entries := [mkEntry EntryConfChange 0 0 [1;2;3;4;5;6;7] []] |>
+                            <| m_ccinfo := [3] |>) = Ok (r', E_PROPOSAL_DROPPED) /\
+    r_pending_conf_index (ex_raft 1 false []) = 0 /\ r_pending_conf_index r' = 5 /\
+    r_msgs r' = [] /\ r_log r' = r_log (ex_raft 1 false []).
+Proof. eexists. split; [vm_compute; reflexivity|]. vm_compute. repeat split. Qed.
